@@ -237,3 +237,26 @@ def tla_value(v):
     if isinstance(v, (list, tuple)):
         return '<<' + ', '.join(tla_value(x) for x in v) + '>>'
     raise ValueError(v)
+
+
+def apalache(module, init, inv, length, workdir, spec_dir=SPEC_DIR, timeout=600, source=None):
+    """Run `apalache-mc check`. Returns 'ok' | 'violation'; anything else raises MachineryError."""
+    out_dir = os.path.join(workdir, 'apalache')
+    os.makedirs(out_dir, exist_ok=True)
+    target = source or (module + '.tla')
+    cmd = ['apalache-mc', 'check', '--init=' + init, '--inv=' + inv, '--length=%d' % length,
+           '--out-dir=' + out_dir, target]
+    try:
+        p = subprocess.run(cmd, cwd=spec_dir if source is None else os.path.dirname(source), timeout=timeout,
+                           stdout=subprocess.PIPE, stderr=subprocess.STDOUT)
+    except subprocess.TimeoutExpired:
+        raise MachineryError('apalache timed out: %s' % ' '.join(cmd))
+    finally:
+        pass
+    out = p.stdout.decode('utf-8', 'replace')
+    shutil.rmtree(out_dir, ignore_errors=True)
+    if 'EXITCODE: OK' in out and 'no error' in out:
+        return 'ok'
+    if p.returncode == 12 or 'Checker has found an error' in out or 'violat' in out:
+        return 'violation'
+    raise MachineryError('apalache failed (%s): %s' % (p.returncode, out[-1500:]))
